@@ -1008,36 +1008,39 @@ func (index *fkDeleteCascadeConstraint) ProcessAfterUpdate(*IndexingContext) {
 
 func (index *fkDeleteCascadeConstraint) ProcessBeforeDelete(ctx *IndexingContext) {
 	if !ctx.ErrHolder.HasError() {
-		filter, err := ast.Parse(index.symbol.GetStore(), fmt.Sprintf(`%v = "%v"`, index.symbol.GetName(), string(ctx.RowId)))
-		if ctx.ErrHolder.SetError(err) {
-			return
-		}
-
 		targetStore := index.symbol.GetStore()
 
+		// Find the referencing entities by comparing the stored field value with the id. The id can't be
+		// embedded in a query string, as it may contain quotes, backslashes or other query syntax
+		var referencingIds []string
+		for cursor := targetStore.IterateValidIds(ctx.Tx(), ast.BoolNodeTrue); cursor.IsValid(); cursor.Next() {
+			id := cursor.Current()
+			if _, fieldValue := index.symbol.Eval(ctx.Tx(), id); bytes.Equal(fieldValue, ctx.RowId) {
+				referencingIds = append(referencingIds, string(id))
+			}
+		}
+
 		if index.cascadeType == CascadeNone {
-			cursor := targetStore.IterateValidIds(ctx.Tx(), filter)
-			if cursor.IsValid() {
+			if len(referencingIds) > 0 {
 				ctx.ErrHolder.SetError(NewReferenceByIdError(
 					index.symbol.GetLinkedType().GetSingularEntityType(),
 					string(ctx.RowId),
 					index.symbol.GetStore().GetSingularEntityType(),
-					string(cursor.Current()),
+					referencingIds[0],
 					index.symbol.GetName()))
 				return
 			}
 		}
 
 		if index.cascadeType == CascadeDelete {
-			cursor := targetStore.IterateValidIds(ctx.Tx(), filter)
-			for cursor.IsValid() {
-				if ctx.ErrHolder.SetError(targetStore.DeleteById(ctx.Ctx, string(cursor.Current()))) {
+			for _, id := range referencingIds {
+				// the entity may already have been removed by a delete cascading from an earlier one
+				if !targetStore.IsEntityPresent(ctx.Tx(), id) {
+					continue
+				}
+				if ctx.ErrHolder.SetError(targetStore.DeleteById(ctx.Ctx, id)) {
 					return
 				}
-
-				// There is a bug in bolt where cursor next will sometimes skip the next row if you delete the
-				// current row, either via cursor delete or just bucket delete. Using seek works around this
-				cursor.Seek(cursor.Current())
 			}
 		}
 	}
